@@ -28,7 +28,7 @@ ASSUMPTIONS = [
     "centre of mass / momentum are the plain sums over in-box coordinates (what the statement says; a merger across "
     "a periodic boundary conserves that sum although the merged body appears in the middle of the box)",
 ]
-CLASSES = ["detect_moving/moving", "detect_moving/mode/tree", "detect_moving/mode/linetree", "detect/mode/direct", "detect/mode/tree", "detect/mode/line", "detect/mode/linetree",
+CLASSES = ["detect_moving/pending_removal", "detect_moving/moving", "detect_moving/mode/tree", "detect_moving/mode/linetree", "detect/mode/direct", "detect/mode/tree", "detect/mode/line", "detect/mode/linetree",
            "detect/boundary/none", "detect/boundary/open", "detect/boundary/periodic", "detect/boundary/shear",
            "detect/nt/multi", "detect/nt/ratio10_tree", "detect/nt/image",
            "remove_fixup/keep_sorted=0", "remove_fixup/keep_sorted=1", "remove_fixup/removed>=2",
@@ -461,6 +461,22 @@ def run_detect(case, ctx):
         got.append((ps[c.p1].hash.value, ps[c.p2].hash.value, (c.gb.x, c.gb.y, c.gb.z, c.gb.vx, c.gb.vy, c.gb.vz)))
         return 0
     sim.collision_resolve = cb
+    removed_cb = set()
+    pend = case.get("pending_remove")
+    if moving and pend is not None and cfg["mode"] in ("tree", "linetree") and len(s0) >= 3:
+        # an unsorted removal issued from the post_timestep_modifications callback: with a tree the particle is only
+        # flagged and is still pending when the collision search runs
+        import ctypes
+        from rebound import clibrebound
+        hsel = int(s0["hash"][pend % len(s0)])
+
+        def post(sp):
+            for i in range(sim.N):
+                if ps[i].hash.value == hsel and hsel not in removed_cb:
+                    clibrebound.reb_simulation_remove_particle(ctypes.byref(sim), ctypes.c_int(i), ctypes.c_int(0))
+                    removed_cb.add(hsel)
+                    break
+        sim.post_timestep_modifications = post
     step(sim)
     t = sim.t
     dtl = sim.dt_last_done
@@ -468,6 +484,14 @@ def run_detect(case, ctx):
         ctx.skip("shear image offset on its normalisation branch point")
         return
     s1 = R.snapshot(sim)
+    if removed_cb:
+        if (s1["y"] != s1["y"]).any() or hsel in set(int(h) for h in s1["hash"]):
+            raise Violation("particle removed from a callback is still in the array after the tree collision search")
+        for g in got:
+            if g[0] is not None and hsel in (g[0], g[1]):
+                raise Violation("collision handed to the resolver for a particle that had been removed (hash %d)" % hsel)
+        orig = {h: i for h, i in orig.items() if h != hsel}
+        ctx.cls("pending_removal")
     # (a tree update may legitimately reorder the array: compare by hash)
     o1 = {int(h): i for i, h in enumerate(s1["hash"])}
     if moving:
@@ -1104,7 +1128,8 @@ bounce_case = system(dust_max=150).flatmap(
 def subs(tier):
     return [
         Sub("detect_moving", skipping(run_detect),
-            strategy=system(modes=["tree", "tree", "linetree", "direct", "line"]).map(lambda c: dict(c, moving=True)),
+            strategy=system(modes=["tree", "tree", "linetree", "direct", "line"]).flatmap(
+                lambda c: st.one_of(st.none(), st.integers(0, 400)).map(lambda k: dict(c, moving=True, pending_remove=k))),
             quick=1000, thorough=24000, shards_quick=8, shards_thorough=16, timeout_quick=1500),
         Sub("detect", skipping(run_detect), strategy=system(), quick=1600, thorough=48000, shards_quick=8, shards_thorough=16, timeout_quick=1500),
         Sub("remove_fixup", skipping(run_remove_fixup), strategy=fixup_case, quick=2000, thorough=40000, shards_quick=8,
